@@ -15,6 +15,8 @@ header text (spaces, tabs, non-ASCII) fits on one space-separated line.
   cmp <presented> <expected>              -> 0 | 1     (comparison of the run: equality patched by obs)
   hval <tc|ws> <name> <value> ...         -> absent | some <str>   (header lines -> value the decorator sees)
   reqh <idx> <method> <tc|ws> <file> <name> <value> ...   -> view | <status>
+  cfg sticky <0|1> / hnew / hreq <idx> <method> <str>|absent <file> <raised 0|1>   (wave 8: one request of a HISTORY; with
+                                             `sticky` a raising authorised request leaves the skip marker for later `req`s)
   mobs <method> <0|1>                     -> ok        (wave 6: the wrapper let a refused credential through for this method)
 The dispatch is `handleW (cmpOf obs)` (`handleM mobs` for a method the wrapper was observed to let through);
 without `obs` / `mobs` lines that is `handle`.
@@ -39,6 +41,8 @@ structure St where
   tok : Option (List Char) := none
   obs : Obs := []
   mobs : MethodObs := []
+  sticky : Bool := false
+  residue : Bool := false
 
 def decTransport (s : String) : Option Transport :=
   if s == "tc" then some testClient else if s == "ws" then some wsgiServer else none
@@ -80,10 +84,24 @@ def stepLine (st : St) (line : String) : St × String :=
   | ["auth", s] => match decAuth s, st.tok with
       | some h, some τ => (st, showOutcome (authOK h τ))
       | _, _ => (st, "bad-op")
+  | ["cfg", "sticky", v] => match flag v with
+      | some v => ({ st with sticky := v }, "ok")
+      | none => (st, "bad-op")
+  | ["hnew"] => ({ st with residue := false }, "ok")
+  | ["hreq", i, m, a, f, raised] => match i.toNat?, decAuth a, decStr f, flag raised, st.tok with
+      | some i, some a, some f, some raised, some τ =>
+        let r : Request Unit := { route := i, method := m, auth := a, file := String.ofList f, payload := () }
+        let (s', status) := if st.sticky && st.residue then handleM [(m, true)] markView st.table st.tok 0 r
+                            else if skipOf st.mobs m then handleM st.mobs markView st.table st.tok 0 r
+                            else handleW (cmpOf st.obs) markView st.table st.tok 0 r
+        ({ st with residue := st.residue || (st.sticky && raised && reachesWrapper st.table r && acceptsB a τ) },
+         if s' != 0 then "view" else toString status)
+      | _, _, _, _, _ => (st, "bad-op")
   | ["req", i, m, a, f] => match i.toNat?, decAuth a, decStr f with
       | some i, some a, some f =>
         let r : Request Unit := { route := i, method := m, auth := a, file := String.ofList f, payload := () }
-        let (s', status) := if skipOf st.mobs m then handleM st.mobs markView st.table st.tok 0 r
+        let (s', status) := if st.sticky && st.residue then handleM [(m, true)] markView st.table st.tok 0 r
+                            else if skipOf st.mobs m then handleM st.mobs markView st.table st.tok 0 r
                             else handleW (cmpOf st.obs) markView st.table st.tok 0 r
         (st, if s' != 0 then "view" else toString status)
       | _, _, _ => (st, "bad-op")
